@@ -275,9 +275,45 @@ def enumerate_cases(tier, shard=0, nshards=1):
         t = ['call', 'G', [['call', 'F', [['num', str(i + 1)]
                                          for i in range(n)]], ['ref', 'A1']]]
         out.append((t, '=' + R.render(t)))
+    # small scope, complete: EVERY sequence of 2 and of 3 binary operators
+    # between plain operands, without parentheses (1 872 formulas whose token
+    # kinds coincide while their trees differ), with two operand layouts;
+    # each shard parses all of them, in an order of its own
+    flat = list(_flat_sequences())
+    k = (7 * shard + 3) % max(1, len(flat))
+    for t, txt in flat[k:] + flat[:k]:
+        yield {'tree': t, 'text': txt}
     for i, (t, txt) in enumerate(out):
         if i % nshards == shard:
             yield {'tree': t, 'text': txt}
+
+
+def _climb(operands, ops):
+    """tree of  o0 op0 o1 op1 o2 ...  under the reference precedences (all
+    operators left-associative)"""
+    def parse(pos, minp):
+        left = operands[pos]
+        while pos < len(ops) and R.PREC[ops[pos]] >= minp:
+            op = ops[pos]
+            right, npos = parse(pos + 1, R.PREC[op] + 1)
+            left = ['op', op, left, right]
+            pos = npos
+        return left, pos
+    return parse(0, 0)[0]
+
+
+def _flat_sequences():
+    import itertools
+    syms = sorted(R.PREC)
+    layouts = [[['ref', 'A1'], ['ref', 'B1'], ['ref', 'C1'], ['ref', 'D1']],
+               [['num', '2'], ['ref', 'B2'], ['num', '3'], ['ref', '$D$2']]]
+    for n in (2, 3):
+        for ops in itertools.product(syms, repeat=n):
+            for lay in (layouts if n == 2 else layouts[:1]):
+                t = _climb(lay[:n + 1], list(ops))
+                txt = '=' + R.render(t)
+                if '(' not in txt:
+                    yield t, txt
 
 
 # ---------------------------------------------------------------- canonical
